@@ -507,6 +507,22 @@ class CFG:
         if len(ss) == 2:
             out[0].add((c, True))
             out[1].add((c, False))
+            # short-circuit: the value of the condition decides enclosing && / || nodes
+            f = self.func
+            for pol, idx in ((True, 0), (False, 1)):
+                cur = f.nodes.get(c)
+                # the condition node may be wrapped in casts/parens: climb transparently
+                while cur is not None:
+                    par = f.parent.get(cur["i"])
+                    while par is not None and par["k"] in TRANSPARENT:
+                        cur, par = par, f.parent.get(par["i"])
+                    if par is None or par["k"] != "BinaryOperator" or par.get("op") not in ("&&", "||"):
+                        break
+                    decides = (par["op"] == "&&" and pol is False) or (par["op"] == "||" and pol is True)
+                    if not decides:
+                        break
+                    out[idx].add((par["i"], pol))
+                    cur = par
         return out
 
     def must_facts(self):
